@@ -9,6 +9,10 @@ HOOKS = dict(
 )
 
 ENGINES = [
+    dict(name="mirsym", path="lib/mirsym/sym.py", serves_properties=["C11"],
+         kind_free_text="MIR -> SMT symbolic execution of loop-free integer fragments (a closure body, a block range of a larger function): path enumeration over the nightly compiler's MIR of the real code, "
+                        "u32 inputs as z3 bit-vectors, core integer / Option methods by their documented semantics, formatting calls recorded as events; each path's panic-freedom and post-condition is one z3 query over ALL input values; "
+                        "satisfying assignments are replayed through the public API of the real crate (dev and release) before a violation is reported"),
     dict(name="mirproto", path="lib/mirproto_engine.py", serves_properties=["C05", "C06", "C08"],
          kind_free_text="MIR -> SMT bounded model checking of lock-free protocols: the nightly compiler's MIR of the real protocol functions is regenerated on every run; "
                         "thread-local code is executed concretely into per-thread automata of visible steps (atomics with their orderings, fences, cell accesses, waker callbacks, storage release); "
@@ -43,7 +47,7 @@ CLAIMED = {
         design_ref="DESIGN.md §5 C05",
         text="For every scenario (sender: send | drop) x (receiver program of <= 2 operations from poll(w1), poll(w2), is_ready, into_value, drop; <= 3 in the thorough tier) z3 decides over ALL interleavings of the visible steps of the real functions (Event::{set, sender_dropped_without_set, poll, poll_bound, poll_set, poll_awaiting, poll_signaling, is_set, final_poll, destroy_*}) up to the longest path of the scenario: "
              "no panic/unreachable arm, payload and waker cells only used in the right state, every cell access happens-after the previous one (no data race under the orderings in the source), payload handed over xor destroyed exactly once, waker clones = drops, outcome consistent with the sender's operation, and a receiver left pending is woken once the sender completed. Bounded, not a proof.",
-        note="Trusts rustc's MIR, the extraction tables (fail closed), the hand-modelled endpoint wrappers (fingerprint-pinned), z3. One atomic location, so value reads are SC by coherence; happens-before exact.",
+        note="Trusts rustc's MIR, the extraction tables (fail closed), the semantic table for the std plumbing of the endpoint wrappers (Option/Context/Result helpers), z3. One atomic location, so value reads are SC by coherence; happens-before exact.",
     ),
     "C06": dict(
         engine="mirproto",
@@ -54,11 +58,13 @@ CLAIMED = {
     ),
     "C11": dict(
         engine="kani",
-        technique="bounded model checking (Kani/CBMC SAT) of the real affinity-mask code (bit position arithmetic for every u32 id, set semantics and width-independent equality)",
+        technique="bounded model checking (Kani/CBMC SAT) of the real affinity-mask code; SMT symbolic execution (z3 bit-vectors over the compiler's MIR) of the range arithmetic of cpulist::emit for every u32",
         design_ref="DESIGN.md §4 C11",
-        text="Only the affinity-mask clause of C11 is decided: BitPosition::{of,bit,processor_id} round-trips for EVERY u32 processor id (word index, single bit, id reconstructed); a 1-word and a 2-word CpuMask with a solver-chosen id inserted into each: membership observed at an arbitrary id equals the inserted set, equality holds iff the sets are equal whatever the widths, width never changes; enumeration of a one-word mask with a solver-chosen word (<= 2 bits) yields ascending ids, one per bit. "
-             "The Linux inventory parsing and the cpulist codec are outside the claim (they do not fit a solver-based encoding here). Bounded, not a proof.",
-        note="Trusts Kani/CBMC/CaDiCaL and smallvec (resize modelled). Partial claim: the mask only.",
+        text="Two clauses of C11 are decided. (1) Affinity mask (Kani): BitPosition::{of,bit,processor_id} round-trips for EVERY u32 processor id (word index, single bit, id reconstructed); a 1-word and a 2-word CpuMask with a solver-chosen id inserted into each: membership observed at an arbitrary id equals the inserted set, equality holds iff the sets are equal whatever the widths (also with an arbitrary second word), width never changes; enumeration of a one-word mask with a solver-chosen word (<= 2 bits) yields ascending ids, one per bit. "
+             "(2) Id-list codec, emit side (mirsym, MIR -> z3, no bound on the values): the grouping step of cpulist::emit (the fold_while closure) from an ARBITRARY accumulator satisfying the run invariant and an arbitrary next id does not panic and returns exactly the specified accumulator; the emission of one group (the loop body inside emit) does not panic for EVERY (start, len) with start+len-1 <= u32::MAX - including runs that end at u32::MAX - and the formatted tokens (n | a,b | a-b) denote exactly the ids start..=start+len-1 for an arbitrary probe id. "
+             "This check found a genuine defect (emit panicked for every run of >= 3 ids ending at u32::MAX), reproduced natively and repaired by /repo commit 17418ce (known_findings.json, fixed). "
+             "The Linux inventory parsing, cpulist::parse and the container / hashing / formatting code around emit's arithmetic are outside the claim (they do not fit a solver-based encoding here). Bounded (mask widths) resp. complete over u32 (arithmetic), not a proof of the whole clause.",
+        note="Trusts Kani/CBMC/CaDiCaL, smallvec (resize modelled), rustc's MIR, the mirsym semantic table for core integer/Option methods, z3. Partial claim: the mask and emit's range arithmetic only.",
     ),
     "C16": dict(
         engine="kani",
